@@ -65,6 +65,16 @@ fn main() {
                 jbverif::util::cleanup_scratch();
                 std::process::exit(if ok { 0 } else { 1 });
             }
+            "--fresh-digests" => {
+                // child of C03's history-independence check
+                let file = args.get(i + 1).cloned().unwrap_or_else(|| usage());
+                let tapes: Vec<Vec<u32>> = serde_json::from_str(&std::fs::read_to_string(&file).expect("tape file")).expect("tape json");
+                for l in jbverif::props::c03::fresh_digests(&tapes) {
+                    println!("{}", l);
+                }
+                jbverif::util::cleanup_scratch();
+                return;
+            }
             "--replay-bytes" => {
                 i += 1;
                 replay_bytes = Some(args.get(i).cloned().unwrap_or_else(|| usage()));
